@@ -15,6 +15,7 @@
      min_threshold m count       Some (min m count), Some count when m is None
      crossed lo up               some entry of lo is larger than the entry of up at the same position
      bad_length n l              length l is neither 1 nor n
+     consistent E raw            what a dictionary must satisfy to be accepted (see C18_consistent_accepted)
      canonical E c               full lengths everywhere, weights of sum one, thresholds within the counts, no crossed bounds,
                                  enumeration values in range and NO perturbation type RELATIVE left (variables_wf, gradient_wf,
                                  linear_wf, nonlinear_wf)
@@ -157,6 +158,13 @@ Theorem C18_rejects_bad_gradient_fields : forall E ctx nls raw,
   forall c, validate E ctx nls raw <> Ok c.
 Proof. exact rejects_bad_gradient_fields. Qed.
 
+(* conversely nothing else is rejected: a dictionary (validated without transforms) none of whose arrays has a bad length, whose
+   bounds -- after broadcasting: bresult1 / expand -- are nowhere crossed, whose weight sums reach the float epsilon, whose
+   enumeration values are in range, with at least one perturbation, non-zero thresholds, one coefficient column per variable
+   and finite bounds wherever a perturbation is RELATIVE (Record consistent, Proofs/ConfigThm.v) is accepted *)
+Theorem C18_consistent_accepted : forall E raw, consistent E raw -> exists c, validate E None None raw = Ok c.
+Proof. exact consistent_accepted. Qed.
+
 (* ---- stable under re-validation ------------------------------------------------------------------------------------ *)
 (* the enumeration values extracted from the current source satisfy what the theorems below need:
    ABSOLUTE is a valid perturbation type and differs from RELATIVE *)
@@ -272,6 +280,7 @@ Print Assumptions C18_rejects_bad_linear_shapes.
 Print Assumptions C18_rejects_bad_nonlinear_shapes.
 Print Assumptions C18_rejects_relative_infinite.
 Print Assumptions C18_rejects_bad_gradient_fields.
+Print Assumptions C18_consistent_accepted.
 Print Assumptions C18_generated_enums_wf.
 Print Assumptions C18_validated_canonical.
 Print Assumptions C18_canonical_fixed_point.
